@@ -128,6 +128,7 @@ package retrypolicy
 
 //@ func (*executor).OnFailure
 //@   beforecall e.onAbort: assert [C14.user_callback_gets_copy] userCopy(callarg_0.ExecutionAttempt)
+//@   beforecall e.onAbort: assert [C17.retry.abort_event_carries_the_aborting_attempt+C16.retry.abort_event_carries_the_aborting_attempt] typeis(callarg_0.ExecutionAttempt, *failsafe.execution) && result != nil ==> asref(callarg_0.ExecutionAttempt, *failsafe.execution).lastResult == result.Result && asref(callarg_0.ExecutionAttempt, *failsafe.execution).lastError == result.Error
 //@   beforecall e.onRetriesExceeded: assert [C14.user_callback_gets_copy] userCopy(callarg_0.ExecutionAttempt)
 //@   requires retryWellFormed(e) && exec != nil && result != nil
 //@   requires e.failedAttempts >= 0 && e.failedAttempts <= 4611686018427387904
